@@ -445,16 +445,38 @@ func builtinModels() map[string]modelFn {
 
 	// ----- time -----
 	m["time.Now"] = func(e *Engine, st *State, c *callCtx) {
-		e.clock += 1000
+		st.clock += 1000
 		// wall: hasMonotonic bit set; ext: monotonic reading
-		e.finish(st, c, AggVal{[]Value{e.ctx.BV(64, 1<<63), e.ctx.BV(64, uint64(e.clock)), PtrVal{}}})
+		e.finish(st, c, AggVal{[]Value{e.ctx.BV(64, 1<<63), e.ctx.BV(64, uint64(st.clock)), PtrVal{}}})
 	}
 	m["time.Since"] = func(e *Engine, st *State, c *callCtx) {
-		e.clock += 1000
+		st.clock += 1000
 		t := c.args[0].(AggVal)
-		e.finish(st, c, e.ctx.Bin(OpSub, e.ctx.BV(64, uint64(e.clock)), t.slots[1].(*Term)))
+		e.finish(st, c, e.ctx.Bin(OpSub, e.ctx.BV(64, uint64(st.clock)), t.slots[1].(*Term)))
 	}
-
+	m["time.Until"] = func(e *Engine, st *State, c *callCtx) {
+		st.clock += 1000
+		t := c.args[0].(AggVal)
+		e.finish(st, c, e.ctx.Bin(OpSub, t.slots[1].(*Term), e.ctx.BV(64, uint64(st.clock))))
+	}
+	// timers never fire by themselves (no scheduler, no real time): AfterFunc/NewTimer return inert timers
+	newTimer := func(e *Engine, st *State, c *callCtx, withChan bool) Value {
+		tt := e.prog.ImportedPackage("time").Type("Timer").Type()
+		id := e.allocType(st, tt)
+		if withChan {
+			ch := e.newObj(st, &Object{kind: ObjChan, bufcap: 1})
+			e.store(st, PtrVal{obj: id}, ChanVal{obj: ch})
+		}
+		return PtrVal{obj: id}
+	}
+	m["time.AfterFunc"] = func(e *Engine, st *State, c *callCtx) { e.finish(st, c, newTimer(e, st, c, false)) }
+	m["time.NewTimer"] = func(e *Engine, st *State, c *callCtx) { e.finish(st, c, newTimer(e, st, c, true)) }
+	m["(*time.Timer).Stop"] = func(e *Engine, st *State, c *callCtx) { e.finish(st, c, e.ctx.True) }
+	m["(*time.Timer).Reset"] = func(e *Engine, st *State, c *callCtx) { e.finish(st, c, e.ctx.True) }
+	m["time.After"] = func(e *Engine, st *State, c *callCtx) {
+		ch := e.newObj(st, &Object{kind: ObjChan, bufcap: 1})
+		e.finish(st, c, ChanVal{obj: ch})
+	}
 	// time.Parse*: opaque, succeeds or fails nondeterministically (formatting/parsing of dates is
 	// outside every claim; only the control flow around it is explored)
 	timeParse := func(e *Engine, st *State, c *callCtx) {
